@@ -134,7 +134,7 @@ def gen_history(rng, n, cell, length):
         elif c < 0.91:
             toks.append("X%d" % i)
         elif c < 0.96:
-            toks.append("T%d:%d" % (i, rng.choice([100, 7])))
+            toks.append("T%d:%d" % (i, rng.choice([100, 7, 9, 8, 99, 101])))
         else:
             on = rng.random() < 0.5
             toks.append("C%d:%d" % (i, 1 if on else 0))
@@ -256,7 +256,11 @@ class Runner:
                 t.xyz = val
                 sh[i] = val.copy()
             elif op == "T":
-                t.time = t.time + int(rest[0])
+                # time stamps as users assign them: float32 (as read from files), float64 with a part below float32 resolution, or integers;
+                # later joins mix these dtypes and must behave like np.concatenate (promotion, no truncation)
+                d_ = int(rest[0])
+                base_ = np.rint(np.asarray(t.time, dtype=np.float64)) + d_
+                t.time = [base_.astype(np.float32), base_ + 2.0 ** -30, base_.astype(np.int64)][d_ % 3]
             elif op == "C":
                 if rest[0] == "1":
                     t.unitcell_lengths = np.stack([3 + 0.01 * t.time, np.full(t.n_frames, 3.5), np.full(t.n_frames, 4.0)], axis=1)
@@ -421,6 +425,30 @@ def run(ctx):
                     seen.setdefault("mutated|" + name, ("%s modified its input trajectory (xyz/time/cell hash changed)" % name,
                                                         dict(n_frames=n, cell=cell, ops=toks, observer=name)))
                     ctx.count("observer calls")
+    # ---- joins of trajectories whose per-frame fields have different dtypes: exactly np.concatenate (promotion, nothing truncated)
+    mk_time = {
+        "int64": lambda n_, o: np.arange(n_, dtype=np.int64) + o,
+        "float32": lambda n_, o: (np.arange(n_) * 0.5 + o).astype(np.float32),
+        "float64": lambda n_, o: np.arange(n_) * 0.25 + o + 2.0 ** -30,
+    }
+    for ka in mk_time:
+        for kb in mk_time:
+            a_ = base_traj(md, 3, ka != "int64", seed=1); b_ = base_traj(md, 4, ka != "int64", seed=2)
+            a_.time = mk_time[ka](3, 0); b_.time = mk_time[kb](4, 10)
+            want_t = np.concatenate([a_.time, b_.time])
+            for how, fn in (("a.join(b)", lambda: a_.join(b_)), ("a + b", lambda: a_ + b_), ("md.join([a, b])", lambda: md.join([a_, b_])), ("a.join([b, a])", lambda: a_.join([b_, a_]))):
+                try:
+                    r_ = fn()
+                except Exception as e:  # noqa: BLE001
+                    seen.setdefault("join|dtypes|raises", ("%s with time dtypes %s, %s raised %s: %s" % (how, ka, kb, type(e).__name__, e), dict(time_dtypes=[ka, kb])))
+                    continue
+                wt = want_t if "[b, a]" not in how else np.concatenate([a_.time, b_.time, a_.time])
+                ctx.case(None, ("join-dtypes", ka, kb, how)); ctx.count("joins with mixed field dtypes")
+                if not np.array_equal(np.asarray(r_.time, dtype=np.float64), np.asarray(wt, dtype=np.float64)):
+                    seen.setdefault("join|time-dtype|%s+%s" % (ka, kb), ("%s of trajectories whose time stamps are %s and %s gives times %s, np.concatenate gives %s" % (how, ka, kb, np.asarray(r_.time)[:8], wt[:8]),
+                                                                              dict(time_dtypes=[ka, kb], how=how)))
+                if not np.array_equal(r_.xyz, np.concatenate([a_.xyz, b_.xyz] + ([a_.xyz] if "[b, a]" in how else []))):
+                    seen.setdefault("join|xyz", ("%s: coordinates are not the concatenation" % how, dict(how=how)))
     for key, (what, rp) in seen.items():
         ctx.violation(key, what, rp)
 
